@@ -83,7 +83,7 @@ def run(ctx):
             D.mutant_twin(ctx, "C18_MC", "C18_mut_%s.cfg" % m, m, timeout=600)
         short = [r for r in mc.records if len(r["steps"]) <= (2 if thorough else 1)]
         deep = [r for r in mc.records if len(r["steps"]) > (2 if thorough else 1)]
-        picked = short + rng.sample(deep, min(len(deep), 12000 if thorough else 3000))
+        picked = short + rng.sample(deep, min(len(deep), 8000 if thorough else 3000))
         if thorough:
             sim = D.run_tlc(ctx, "C18_MC", "C18_sim.cfg", simulate="num=2", depth=6, workers=8, timeout=900, tag="sim")   # num is per worker: 16 walks
             if sim.violated or sim.error:
